@@ -29,6 +29,21 @@ func (s *coSched) sync() {
 	s.cur = id
 }
 
+// layers of a C20 case: chain b0 <- d0 <- d1 (as many as "layers" lists), each with its
+// bind imports
+func c20Layers(c Case) (names []string, imports [][]string) {
+	ls, _ := c["layers"].([]interface{})
+	for i, l := range ls {
+		names = append(names, []string{"b0", "d0", "d1"}[i])
+		imports = append(imports, unhxs(l))
+	}
+	if len(names) == 0 { // old single-layer form
+		names = []string{"b0"}
+		imports = [][]string{unhxs(c["targets"])}
+	}
+	return
+}
+
 func runConcurrent(c Case) interface{} {
 	scratch := os.Getenv("VERIF_SCRATCH")
 	if scratch == "" {
@@ -41,25 +56,39 @@ func runConcurrent(c Case) interface{} {
 	defer os.RemoveAll(root)
 	e := &scenarioEnv{root: root, kernel: newSimKernel()}
 	e.cfg = cfgFromCase(defaultCfg(), e.virt)
-	targets := unhxs(c["targets"])
-	lp := root + "/layers/b0"
-	var cfgLines []string
-	for i, t := range targets {
-		src := fmt.Sprintf("%s/hostsrc/s%d", root, i)
-		os.MkdirAll(src, 0755)
-		os.MkdirAll(lp+"/build"+t, 0755)
-		cfgLines = append(cfgLines, fmt.Sprintf("import bind %s %s", src, t))
-	}
-	for _, d := range []string{"bin", "etc", "lib", "opt", "root", "sbin", "usr"} {
-		os.MkdirAll(lp+"/build/"+d, 0755)
+	names, imports := c20Layers(c)
+	nsrc := 0
+	for li, name := range names {
+		lp := root + "/layers/" + name
+		var cfgLines []string
+		if li > 0 {
+			cfgLines = append(cfgLines, "base "+names[li-1], "")
+			os.MkdirAll(lp+"/overlayfs/workdir", 0755)
+			os.MkdirAll(lp+"/overlayfs/upperdir", 0755)
+		}
+		for _, t := range imports[li] {
+			src := fmt.Sprintf("%s/hostsrc/s%d", root, nsrc)
+			nsrc++
+			os.MkdirAll(src, 0755)
+			os.MkdirAll(lp+"/build"+t, 0755)
+			cfgLines = append(cfgLines, fmt.Sprintf("import bind %s %s", src, t))
+		}
+		for _, d := range []string{"bin", "etc", "lib", "opt", "root", "sbin", "usr"} {
+			os.MkdirAll(lp+"/build/"+d, 0755)
+		}
+		ioutil.WriteFile(lp+"/layerconfig", []byte(strings.Join(cfgLines, "\n")+"\n"), 0644)
 	}
 	os.MkdirAll(root+"/export", 0755)
-	ioutil.WriteFile(lp+"/layerconfig", []byte(strings.Join(cfgLines, "\n")+"\n"), 0644)
 	e.kernel.mnts = append(e.kernel.mnts, kmnt{ID: 1, Parent: 0, Dev: "8:1", Root: "/", Mp: "/", Fstype: "ext4", Src: "/dev/sda1"})
 	restore := e.install()
 	defer restore()
 	fs.WriteOK = fs.MakePretender(false, false, nil)
 	runCmd := func(cmd string) error {
+		f := strings.Fields(cmd)
+		layer := "b0"
+		if len(f) > 1 {
+			layer = f[1]
+		}
 		layers, err := manage.FindLayers(e.cfg, &config.Opts{})
 		if err != nil {
 			return err
@@ -67,14 +96,19 @@ func runConcurrent(c Case) interface{} {
 		if err = layers.ProbeAllLayerstate(fs.InUseLayerMap{}); err != nil {
 			return err
 		}
-		if cmd == "mount" {
-			return layers.Mount("b0")
+		if f[0] == "mount" {
+			return layers.Mount(layer)
 		}
-		return layers.Unmount("b0", false)
+		return layers.Unmount(layer, false)
 	}
 	if b, _ := c["premounted"].(bool); b {
 		if err := runCmd("mount"); err != nil {
 			return obj("harness-error", "premount: "+err.Error())
+		}
+	}
+	for _, pm := range unhxs(c["pre"]) {
+		if err := runCmd(pm); err != nil {
+			return obj("harness-error", "pre "+pm+": "+err.Error())
 		}
 	}
 	s := &coSched{event: make(chan int)}
@@ -134,14 +168,31 @@ func runConcurrent(c Case) interface{} {
 	for !done[1] {
 		turn(1)
 	}
-	mps := []string{}
-	for _, m := range e.kernel.mnts {
-		if strings.HasPrefix(m.Mp, root+"/") {
-			mps = append(mps, e.unvirt(m.Mp))
+	table := func() []interface{} {
+		mps := []string{}
+		for _, m := range e.kernel.mnts {
+			if strings.HasPrefix(m.Mp, root+"/") {
+				mps = append(mps, e.unvirt(m.Mp))
+			}
 		}
+		sort.Strings(mps)
+		return hxs(mps)
 	}
-	sort.Strings(mps)
-	return obj("kernel", hxs(mps), "r0", results[0], "r1", results[1])
+	out := obj("kernel", table(), "r0", results[0], "r1", results[1])
+	// afterwards, alone: e.g. one later umount
+	fs.SyscallMount, fs.SyscallUnmount, fs.GetAlternateProbeMountsCursor = baseMount, baseUmount, baseCursor
+	then := []interface{}{}
+	for _, cmd := range unhxs(c["then"]) {
+		r := "ok"
+		if err := runCmd(cmd); err != nil {
+			r = "err"
+		}
+		then = append(then, obj("r", r, "kernel", table()))
+	}
+	if len(then) > 0 {
+		out["then"] = then
+	}
+	return out
 }
 
 func init() {
@@ -163,6 +214,68 @@ func init() {
 			}
 			emitOne([]string{"/mnt/a"}, "mount", "mount", false, sched)
 		}
+		// chains: b0 <- d0 (<- d1), some layers mounted beforehand, one later umount afterwards
+		nchain := 40
+		if tier == "thorough" {
+			nchain = 1200
+		}
+		for i := 0; i < nchain; i++ {
+			depth := 2 + g.Intn(2)
+			layers := []interface{}{}
+			for d := 0; d < depth; d++ {
+				k := 1 + g.Intn(2)
+				ts := []string{}
+				for _, p := range g.Perm(len(pool))[:k] {
+					ts = append(ts, pool[p])
+				}
+				sort.Strings(ts)
+				layers = append(layers, hxs(ts))
+			}
+			names := []string{"b0", "d0", "d1"}[:depth]
+			pre := []string{}
+			switch g.Intn(4) {
+			case 1:
+				pre = []string{"mount b0"}
+			case 2:
+				pre = []string{"mount " + names[depth-1]}
+			case 3:
+				if depth > 2 {
+					pre = []string{"mount d0"}
+				}
+			}
+			cmd := func() string {
+				l := names[g.Intn(depth)]
+				if g.Chance(70, 100) {
+					return "mount " + l
+				}
+				return "umount " + l
+			}
+			sched := make([]interface{}, 2+g.Intn(16))
+			for j := range sched {
+				sched[j] = g.Chance(1, 2)
+			}
+			if g.Chance(1, 3) { // one process runs entirely between two kernel interactions of the other
+				cut := 1 + g.Intn(6)
+				sched = sched[:0]
+				for j := 0; j < cut; j++ {
+					sched = append(sched, false)
+				}
+				for j := 0; j < 30; j++ {
+					sched = append(sched, true)
+				}
+			}
+			then := []string{}
+			if g.Chance(1, 2) {
+				then = []string{"umount " + names[depth-1]}
+				if g.Chance(1, 2) {
+					then = append(then, "umount "+names[depth-1])
+				}
+			}
+			emit(Case{"op": "conc.run", "layers": layers, "cmd0": cmd(), "cmd1": cmd(), "pre": hxs(pre), "then": hxs(then), "sched": sched})
+		}
+		// one target, both mount with stale caches, then ONE later umount must clean up
+		emit(Case{"op": "conc.run", "layers": []interface{}{hxs([]string{"/mnt/a"})}, "cmd0": "mount b0", "cmd1": "mount b0",
+			"pre": hxs(nil), "then": hxs([]string{"umount b0"}), "sched": []interface{}{false, true, false, true}})
 		for i := 0; i < n; i++ {
 			k := 1 + g.Intn(3)
 			perm := g.Perm(len(pool))
